@@ -185,10 +185,12 @@ pub fn permissive_specs(headers: &[(bool, bool, Vec<Vec<u8>>)]) -> Vec<Spec> {
         if mn.is_empty() {
             continue;
         }
-        // only names a legitimate tree can contain: [*]alpha(alnum|_)*, at most 12 characters
+        // only names of mnemonic shape: [*]alpha(alnum|_)*. No length limit: the library does not restrict
+        // definitions, and a lexer that let an over-long mnemonic through must find a node to execute
+        // (otherwise -113 from the dispatcher would hide the missing lexical rejection)
         let valid = |m: &Vec<u8>| {
             let b = if m.first() == Some(&b'*') { &m[1..] } else { &m[..] };
-            !b.is_empty() && b.len() <= 12 && b[0].is_ascii_alphabetic() && b.iter().all(|c| c.is_ascii_alphanumeric() || *c == b'_')
+            !b.is_empty() && b[0].is_ascii_alphabetic() && b.iter().all(|c| c.is_ascii_alphanumeric() || *c == b'_')
         };
         if !mn.iter().all(valid) {
             continue;
@@ -479,6 +481,7 @@ pub fn judge(ctx: &mut Ctx, input: &[u8], tag: &str) -> &'static str {
                         ctx.count("rejected-by.lexer");
                     } else {
                         ctx.count("rejected-by.dispatcher");
+                        ctx.count(&format!("rejected-by.dispatcher.{}.{}", reason, e.get_code()));
                     }
                 }
             }
